@@ -194,3 +194,43 @@ func cliWorkers(prop string, idx int, seed int64) (string, bool) {
 	}
 	return fmt.Sprintf("%s cliw%d.0 cli.workers;nt -4 %d %d 4 %d %d", prop, idx, maxw, conns, atomic.LoadInt64(&peak), atomic.LoadInt64(&total)), true
 }
+
+// preStop: Stop is called before Attack on the same Attacker.  The stop is not forgotten: the
+// attack (no duration, a pacer that never stops) ends by itself, and a later Stop call finds the
+// stop already initiated.
+// Wire: "<prop> prestop<i>.0 stop.before;nt -5 <first Stop returned> <ended within 3 s> <later Stop returned> <results>"
+func preStop(prop string, idx int) string {
+	srv := httptest.NewServer(http.HandlerFunc(func(w http.ResponseWriter, r *http.Request) { w.Write([]byte("ok")) }))
+	defer srv.Close()
+	atk := vegeta.NewAttacker(vegeta.Workers(uint64(1+idx%3)), vegeta.Timeout(2*time.Second))
+	first := atk.Stop()
+	res := atk.Attack(vegeta.NewStaticTargeter(vegeta.Target{Method: "GET", URL: srv.URL}), vegeta.Rate{Freq: 200, Per: time.Second}, 0, "prestop")
+	n := 0
+	ended := false
+	deadline := time.After(3 * time.Second)
+loop:
+	for {
+		select {
+		case _, ok := <-res:
+			if !ok {
+				ended = true
+				break loop
+			}
+			n++
+		case <-deadline:
+			break loop
+		}
+	}
+	later := atk.Stop()
+	if !ended {
+		for range res { // let it finish now that it has (wrongly) been stopped again
+		}
+	}
+	bz := func(x bool) int {
+		if x {
+			return 1
+		}
+		return 0
+	}
+	return fmt.Sprintf("%s prestop%d.0 stop.before;nt -5 %d %d %d %d", prop, idx, bz(first), bz(ended), bz(later), n)
+}
